@@ -444,3 +444,24 @@ Example table_to_symbols_error_order :
   table_to_symbols (mkTable ix (tl (tl (base 2)) ++ [col "extra" PInt64 (CInt 1)])) = TErr KeyError /\
   table_to_symbols (mkTable ix ([col "lags" PStrDt (CStr "a"); col "extra" PInt64 (CInt 1)] ++ base 2)) = TErr ValueError.
 Proof. vm_compute. repeat split; reflexivity. Qed.
+
+(* ------------------------------------------------------------------ span_stable is necessary for the round trip of the labels *)
+Lemma from_to_span_stable_necessary :
+  exists m c t m',
+    wf_model m (length (splabels (fspan m))) /\ span_stable (fspan m) = false /\ cnames c = fnames m /\ cstrict c = false /\
+    model_to_table false false true m = TOk t /\ from_table c t = TOk m' /\
+    splabels (fspan m) = [CInt 1; CNone] /\ splabels (fspan m') = [CFlt (FInt 1); CFlt FNaN] /\
+    fvars m' = fvars m.
+Proof.
+  exists none_model, (mkClass ["X"] NFloat (CFlt (FInt 0)) false). eexists. eexists.
+  split.
+  { constructor.
+    - repeat constructor; cbn; intuition discriminate.
+    - cbn. intuition discriminate.
+    - cbn. intuition discriminate.
+    - intros k H. cbn in H. destruct H as [<-|[]]. eexists; split; reflexivity.
+    - reflexivity.
+    - reflexivity. }
+  split; [reflexivity|]. split; [reflexivity|]. split; [reflexivity|].
+  split; [vm_compute; reflexivity|]. split; [vm_compute; reflexivity|]. repeat split; reflexivity.
+Qed.
